@@ -893,6 +893,12 @@ func (e *Engine) carriedInStruct(s *fstate, v, a ssa.Value, c, b *ssa.BasicBlock
 	if al == nil || al.Referrers() == nil || namedStruct(al.Type()) == nil {
 		return false
 	}
+	// the value is read back out of the checked struct: spec := T{…}; if err := spec.validate(); …; use(spec.width)
+	if ld, ok := v.(*ssa.UnOp); ok && ld.Op == token.MUL {
+		if fa, ok := ld.X.(*ssa.FieldAddr); ok && fa.X == ssa.Value(al) {
+			return true
+		}
+	}
 	for _, r := range *al.Referrers() {
 		fa, ok := r.(*ssa.FieldAddr)
 		if !ok || fa.Referrers() == nil {
